@@ -455,6 +455,10 @@ func buildSvcFan(tier string, prop string) sim.Scenario {
 						// buffered.Conn, is still in its write buffer when the connection is closed
 						if c.kind == "tcp" && !c.left && missing[0] > lastHave && pubs[missing[len(missing)-1]].at.Sub(pubs[missing[0]].at) <= 40*time.Millisecond {
 							class, why = "C01/tail-not-flushed", fmt.Sprintf("; the last %d packet(s) of the stream, published within %v, were left in the write buffer of the player's connection when it was closed", len(missing), pubs[missing[len(missing)-1]].at.Sub(pubs[missing[0]].at))
+							if strings.Contains(c.note, "truncated frame") {
+								why += " (the byte stream even ends inside a frame: its 4-byte prefix was sent, its payload stayed in the buffer)"
+								w.Probe("fan.stream-ends-inside-a-frame")
+							}
 						}
 						msg := fmt.Sprintf("%s client %s (PLAY answered when %d packets had been published, left early=%v): published packet #%d of %d (channel %d, %d bytes) never arrived (%d packets received, %d missing, real pusher=%v, end by %s) although nothing was dropped for backlog%s", c.kind, c.name, c.after, c.left, i, len(pubs), pubs[i].p.Channel, len(pubs[i].p.Data), len(got), len(missing), realPusher, endCause, why)
 						if class == "C01/tail-not-flushed" { // recorded finding: reported only if every other rule held in this run
